@@ -19,6 +19,11 @@ pub enum BvmStart {
     CollectBools(Vec<bool>),
     /// positions in any order, possibly repeated
     CollectPositions(Vec<u16>),
+    /// the same positions (any order, possibly repeated) collected into an immutable BitVector
+    /// (as u32 values if the flag is set), then `into()` BitVectorMut
+    CollectPositionsImmutable(Vec<u16>, bool),
+    /// bools collected into an immutable BitVector, then `into()` BitVectorMut
+    CollectBoolsImmutable(Vec<bool>),
 }
 
 #[derive(Clone, Debug, PartialEq, Eq, Hash, Serialize, Deserialize)]
@@ -52,6 +57,9 @@ pub enum BvmOp {
     RebuildFromLooseIter(u8),
     /// the bits collected into a BitVector through a loose iterator, then `into()` BitVectorMut
     ViaLooseBitVector(u8),
+    /// `let src: BitVector = bv.into(); dst.clone_from(&src); bv = dst.into()` where dst is an
+    /// immutable BitVector of `dst_len` bits (ones if `dst_ones`)
+    ImmutableCloneFromInto { dst_len: u16, dst_ones: bool },
 }
 
 #[derive(Clone, Debug, PartialEq, Eq, Hash, Serialize, Deserialize)]
@@ -89,6 +97,8 @@ impl Prop for C08 {
             2 => prop_oneof![Just(0usize), 0usize..1500, Just(512usize), Just(511), Just(513), Just(64), Just(1024)].prop_map(BvmStart::WithZeros),
             2 => bools(700).prop_map(BvmStart::CollectBools),
             2 => proptest::collection::vec(0u16..1400, 0..60).prop_map(BvmStart::CollectPositions),
+            2 => (proptest::collection::vec(prop_oneof![3 => 0u16..1400, 1 => 0u16..40], 0..60), any::<bool>()).prop_map(|(p, w)| BvmStart::CollectPositionsImmutable(p, w)),
+            1 => bools(700).prop_map(BvmStart::CollectBoolsImmutable),
         ];
         let len64 = prop_oneof![4 => 0u8..=64, 2 => Just(64u8), 1 => Just(63u8), 1 => Just(1u8)];
         let word = prop_oneof![3 => any::<u64>(), 1 => Just(u64::MAX), 1 => Just(0u64), 1 => Just(1u64 << 63)];
@@ -112,6 +122,7 @@ impl Prop for C08 {
             1 => (proptest::collection::vec(any::<u16>(), 0..20), prop_oneof![Just(0u16), Just(1), 0u16..1500], any::<u8>()).prop_map(|(fracs, slack, mode)| BvmOp::ExtendPositionsLoose { fracs, slack, mode }),
             1 => any::<u8>().prop_map(BvmOp::RebuildFromLooseIter),
             1 => any::<u8>().prop_map(BvmOp::ViaLooseBitVector),
+            2 => (prop_oneof![0u16..3000, Just(512u16), Just(1024), Just(0)], any::<bool>()).prop_map(|(dst_len, dst_ones)| BvmOp::ImmutableCloneFromInto { dst_len, dst_ones }),
         ];
         let nops = prop_oneof![3 => 0usize..=12, 3 => 0usize..=maxops / 3, 1 => 0usize..=maxops];
         (start, nops.prop_flat_map(move |k| proptest::collection::vec(op.clone(), k..=k)), any::<u64>())
@@ -156,6 +167,22 @@ impl Prop for C08 {
             BvmStart::CollectBools(b) => {
                 m = b.clone();
                 b.iter().copied().collect()
+            }
+            BvmStart::CollectPositionsImmutable(p, wide) => {
+                for &x in p {
+                    let x = x as usize;
+                    if x >= m.len() {
+                        m.resize(x + 1, false);
+                    }
+                    m[x] = true;
+                }
+                let im: BitVector = if *wide { p.iter().map(|&x| x as u32).collect() } else { p.iter().map(|&x| x as usize).collect() };
+                im.into()
+            }
+            BvmStart::CollectBoolsImmutable(b) => {
+                m = b.clone();
+                let im: BitVector = b.iter().copied().collect();
+                im.into()
             }
             BvmStart::CollectPositions(p) => {
                 for &x in p {
@@ -267,6 +294,14 @@ impl Prop for C08 {
                     let im: BitVector = crate::loose::loose_iter(bits, *mode).collect();
                     ensure!(im.len() == m.len(), "after op {}: BitVector collected behind a loose size hint (mode {mode}) has len {}, expected {}", k + 1, im.len(), m.len());
                     bv = im.into();
+                }
+                BvmOp::ImmutableCloneFromInto { dst_len, dst_ones } => {
+                    note("clone_from (BitVector)", *dst_len as u128, 0, 0);
+                    let src: BitVector = bv.into();
+                    let mut dst: BitVector = std::iter::repeat(*dst_ones).take(*dst_len as usize).collect();
+                    dst.clone_from(&src);
+                    ensure!(dst == src, "after op {}: dst.clone_from(&src) leaves BitVector dst != src (dst held {} bits, src holds {})", k + 1, dst_len, src.len());
+                    bv = dst.into();
                 }
                 BvmOp::ExtendPositionsLoose { fracs, slack, mode } => {
                     let span = n + *slack as usize;
